@@ -60,7 +60,8 @@ def run_calls(arg):
             lines[int(m.group(1))] = (m.group(2), int(m.group(3)), m.group(4) == "#t", int(m.group(5)), int(m.group(6)), int(m.group(7)), m.group(8))
     import shutil
     shutil.rmtree(d, ignore_errors=True)
-    return jobno, items, lines, r.rc, r.timed_out, asan_sites(r.out), r.out[-1500:], time.time() - t0
+    missing = any(it[0] not in lines for it in items)
+    return jobno, items, lines, r.rc, r.timed_out, asan_sites(r.out), r.out[-(60000 if missing else 1500):], time.time() - t0
 
 
 # ---------------------------------------------------------------- reader texts
@@ -82,10 +83,11 @@ READER_DRIVER = r"""
     (guard (e (#t #f)) (string->number s 16))
     (guard (e (#t #f)) (string->number s 2))
     (if do-eval
-        (guard (e (#t (bump! 5)))
+        (guard (e (#t (%%verif 'set-budget 0) (bump! 5)))
           (%%verif 'set-budget 200000)
           (let ((x (read (open-input-string s))))
             (if (not (eof-object? x)) (eval x env)))
+          (%%verif 'set-budget 0)
           (bump! 4)))))
 (define (all-texts len first-lo first-hi do-eval)
   ;; every byte string of exactly `len` symbols whose first symbol index is in [first-lo, first-hi)
@@ -115,6 +117,76 @@ def run_reader(arg):
     return jobno, (length, lo, hi, do_eval), counts, r.rc, r.timed_out, asan_sites(r.out), r.out[-1200:]
 
 
+# ---------------------------------------------------------------- datum labels
+LABELS = [0, 1, 2, 9, 10, 15, 16, 17, 22, 23, 24, 25, 39, 40, 46, 47, 48, 49, 63, 64, 100, 1000, 99999999999]
+LABEL_DRIVER = r"""
+(import (scheme base) (scheme write) (prefix (scheme read) lib:) (only (chibi) read))
+(define (show tag i s rd)
+  (display tag) (display " ") (display i) (display " ")
+  (write (guard (e (#t 'E)) (let ((x (rd (open-input-string s)))) (if (and (list? x) (every symbol? x)) x 'OTHER))))
+  (newline))
+(define (every p l) (or (null? l) (and (p (car l)) (every p (cdr l)))))
+(define (run i s) (show "#LN" i s read) (show "#LL" i s lib:read))
+"""
+
+
+def label_texts(maxlen):
+    toks = [("d", n) for n in LABELS] + [("r", n) for n in LABELS]
+    out = []
+    for ln in range(1, maxlen + 1):
+        for seq in itertools.product(toks, repeat=ln):
+            if not any(k == "r" for k, _ in seq):
+                continue
+            out.append(seq)
+    return out
+
+
+def label_text(seq):
+    return "(" + " ".join(("#%d=s%d" % (n, i)) if k == "d" else ("#%d#" % n) for i, (k, n) in enumerate(seq)) + ")"
+
+
+def label_verdict(seq, got):
+    """got: 'E', 'OTHER' or a list of symbol names.  A reference to a label that no earlier datum of the text carries must be an
+    error; where a value is returned every reference must denote a datum defined earlier under that label."""
+    defs = {}
+    undefined = False
+    for i, (k, n) in enumerate(seq):
+        if k == "r" and n not in defs:
+            undefined = True
+        if k == "d":
+            defs.setdefault(n, set()).add("s%d" % i)
+    if got == "E":
+        return None
+    if undefined:
+        return "a reference to an undefined label was accepted and produced %s" % (got,)
+    if got == "OTHER" or len(got) != len(seq):
+        return "the datum read is not the list of %d symbols: %s" % (len(seq), got)
+    seen = {}
+    for i, (k, n) in enumerate(seq):
+        if k == "d":
+            seen.setdefault(n, set()).add("s%d" % i)
+            if got[i] != "s%d" % i:
+                return "element %d should be s%d, got %s" % (i, i, got[i])
+        elif got[i] not in seen.get(n, ()):
+            return "element %d (#%d#) should be one of %s, got %s" % (i, n, sorted(seen.get(n, ())), got[i])
+    return None
+
+
+def run_labels(arg):
+    jobno, seqs = arg
+    d = common.scratch_dir("c01l")
+    p = os.path.join(d, "job.scm")
+    common.write_file(p, LABEL_DRIVER + "".join('(run %d "%s")\n' % (i, label_text(sq)) for i, sq in enumerate(seqs)))
+    r = common.evalbatch("asan", [p], heap="64M/512M", env=ENV, timeout=900, cwd=d)
+    res = {}
+    for m in re.finditer(r"^#L([NL]) (\d+) (.*)$", r.out, re.M):
+        v = m.group(3).strip()
+        res[(m.group(1), int(m.group(2)))] = v if v in ("E", "OTHER") else v.strip("()").split()
+    import shutil
+    shutil.rmtree(d, ignore_errors=True)
+    return jobno, res, r.rc, r.timed_out, asan_sites(r.out), r.out[-600:]
+
+
 # ---------------------------------------------------------------- nesting depth
 NEST_DRIVER = r"""
 (import (scheme base) (scheme write) (scheme read) (scheme eval))
@@ -138,13 +210,21 @@ NEST_DRIVER = r"""
      ((eval-quoted) (outcome (lambda () (eval (list 'quote (deep-list n)) (environment '(scheme base))))))
      ((length-long) (outcome (lambda () (length (make-list n 0)))))
      ((apply-long) (outcome (lambda () (apply + (make-list n 1)))))
+     ((apply-lambda-deep)     ; the call happens 300 frames up the VM stack; the result must be the number of arguments
+      (outcome (lambda ()
+                 (let ((r (let down ((d 300)) (if (= d 0) (apply (lambda xs (length xs)) (make-list n 1)) (+ 0 (down (- d 1)))))))
+                   (if (not (= r n)) (begin (display "WRONG ") (display r) (display " ")))))))
+     ((apply-list-deep)
+      (outcome (lambda ()
+                 (let ((r (let down ((d 100)) (if (= d 0) (length (apply list (make-list n 1))) (+ 0 (down (- d 1)))))))
+                   (if (not (= r n)) (begin (display "WRONG ") (display r) (display " ")))))))
      ((append-long) (outcome (lambda () (length (append (make-list n 0) '(1))))))
      ((list->string-long) (outcome (lambda () (string-length (list->string (make-list n #\a))))))
      (else 'unknown)))
   (newline))
 """
 NEST_TAGS = ["read-parens", "read-open-only", "read-vectors", "read-quotes", "read-comments", "write-list", "write-vector", "equal-list",
-             "eval-nested", "eval-quoted", "length-long", "apply-long", "append-long", "list->string-long"]
+             "eval-nested", "eval-quoted", "length-long", "apply-long", "apply-lambda-deep", "apply-list-deep", "append-long", "list->string-long"]
 PROBE_AFTER = '(begin (display "#P ") (write (list (+ 1 2) (string-append "a" "b") (guard (e (#t (quote caught))) (car 1)) (vector-length (make-vector 3 0)))) (newline))\n'
 
 
@@ -204,7 +284,7 @@ def main(tier):
                     chk.violation({"op": "call:" + nm, "name": nm, "arity": ar, "kind": "hang" if timed_out else "crash", "rc": rc},
                                   "%s with arity %d: the batch %s before printing its result (rc=%s): %s" % (
                                       nm, ar, "hung (C-level loop or watchdog)" if timed_out else "died", rc, tail[-300:]),
-                                  open(DRIVER).read() + "(run 0 '%s %d)\n" % (nm, ar))
+                                  open(DRIVER).read() + "(run 0 '%s %d)\n" % (nm, ar) + "#| output of the batch:\n" + tail.replace("|#", "| #") + "\n|#\n")
                     break
                 ncalls += ln[3] + ln[4]
                 nerr += ln[4]
@@ -260,9 +340,36 @@ def main(tier):
                 break
     log("C01 (2) done: %d texts" % ntexts)
     chk.cov["texts"] = ntexts
+    # ---- (2b) datum labels: every sequence of <= 3 label definitions / references over a label lattice, both readers
+    seqs = label_texts(3)
+    per = 4000
+    ljobs = [(j, seqs[lo:lo + per]) for j, lo in enumerate(range(0, len(seqs), per))]
+    nlab = 0
+    with Pool(common.NCPU) as pool:
+        for jobno, res, rc, timed_out, sites, tail in pool.imap_unordered(run_labels, ljobs):
+            sq = ljobs[jobno][1]
+            if rc != 0 or timed_out:
+                chk.violation({"op": "label-crash", "job": jobno, "rc": rc, "hang": timed_out}, "datum label batch %d %s: %s" % (
+                    jobno, "hung" if timed_out else "died rc=%s" % rc, tail[-300:]))
+                continue
+            for kind, fn, loc in sorted(set(sites)):
+                chk.violation({"op": "asan-reader:" + fn, "kind": kind, "site": loc, "spec": "labels"},
+                              "AddressSanitizer %s in %s (%s) while reading datum labels" % (kind, fn, loc))
+            for i, one in enumerate(sq):
+                for rd in "NL":
+                    got = res.get((rd, i))
+                    nlab += 1
+                    why = "no result" if got is None else label_verdict(one, got)
+                    chk.count(1, outcome="label-error" if got == "E" else "label-value", key=("label", rd, one) if got == "E" else None)
+                    if why:
+                        chk.violation({"op": "reader-label:" + ("native" if rd == "N" else "library"), "text": label_text(one)},
+                                      "%s read of %s: %s" % ("native" if rd == "N" else "(scheme read)", label_text(one), why),
+                                      LABEL_DRIVER + '(run 0 "%s")\n' % label_text(one))
+    chk.cov["label_texts"] = nlab
+    chk.sample("(#10=s0 #23=s1 #100#) : three label tokens over the lattice %s" % LABELS)
     chk.sample("text bytes 28 c3 22 5c : '(' 0xC3 '\"' '\\\\' fed to read, (scheme read), string->number, eval")
     # ---- (3)
-    depths = [10, 1000, 100000] + ([] if quick else [1000000])
+    depths = [10, 1000, 20000, 100000] + ([] if quick else [950, 1100, 5000, 300000, 1000000, 1100000])
     njobs = [(v, t, n) for v in ("asan", "opt") for t in NEST_TAGS for n in depths]
     with Pool(common.NCPU) as pool:
         nres = list(pool.imap_unordered(run_nest, njobs))
